@@ -183,16 +183,26 @@ def analyse(R, h, out):
                     vis[rid] = [c for j, c in enumerate(rows) if j not in dead]
                 groups = {x[0]: [] for x in new}
                 ok = True
+                pool = []            # row-sets without a visible row: which pass took them cannot be seen in its output
                 for g in gone:
-                    owners = [x[0] for x in new if vis[g] and vis[g][0] in x[1]]
-                    if not vis[g]:
-                        owners = [x[0] for x in new][:1] or [None]
                     if len(new) <= 1:
                         owners = [new[0][0] if new else None]
+                    elif not vis[g]:
+                        pool.append(g)
+                        continue
+                    else:
+                        owners = [x[0] for x in new if vis[g][0] in x[1]]
                     if len(owners) != 1:
                         ok = False
                         break
                     groups.setdefault(owners[0], []).append(g)
+                for nid in sorted(k for k in groups if k is not None):
+                    while len(groups[nid]) < 2 and pool:       # a pass compacts at least two row-sets
+                        groups[nid].append(pool.pop(0))
+                if pool:
+                    groups[sorted(k for k in groups if k is not None)[0]] += pool
+                for nid in groups:
+                    groups[nid].sort()
                 if not ok:
                     R.coverage["unexplained_steps"] = R.coverage.get("unexplained_steps", 0) + 1
                     skipc = True
@@ -266,15 +276,16 @@ def run(R, only=None):
         t = analyse(R, h, o)
         if t is not None:
             terms.append(t)
-            usable.append(h)
+            usable.append((h, [[(r["id"], len(r["rows"]), [(d[0], len(d[1])) for d in r["dvs"]]) for r in x["layout"]]
+                               for x in o if isinstance(x, dict) and x.get("layout") is not None]))
     failing = coq_eval("C07", HEADER, terms, per_file=12)
     names = {1: "fresh ids / unique row-set ids (model invariant)", 2: "row-sets after the step = model", 3: "delete vectors after the step = model",
              4: "DELETE count / compaction output = model", 5: "SELECT * = model scan"}
     if failing:
         i = sorted(failing)[0]
         c = failing[i][0]
-        h = usable[i]
-        R.correspondence_broken(f"C07 step {c // 10}: {names.get(c % 10, c)}", json.dumps({"history": h}))
+        h, lay = usable[i]
+        R.correspondence_broken(f"C07 step {c // 10}: {names.get(c % 10, c)}", json.dumps({"history": h, "observed_layouts": lay, "term": terms[i]}))
     R.coverage.update({
         "evaluations": len(terms), "distinct_nontrivial": sum(1 for h in hs if sum(1 for k, _ in h["script"] if k in ("delete", "sleep", "reopen")) >= 2),
         "rule": "histories of 4-22 steps over {insert 1-60 rows, delete where p (8 predicate kinds incl. all/none/NULL), compactor+vacuum pass "
